@@ -137,7 +137,39 @@ def check_initial(r, client, pairs, tag):
                       repr(pairs))
 
 
-CHANNELS = {'recv': check_received, 'update': check_update, 'initial': check_initial}
+def check_upgrade(r, client, pairs, tag):
+    """Settings received in the HTTP2-Settings header of an h2c upgrade (server side only): the same verdicts and
+    codes as for a received SETTINGS frame; nothing has been sent yet, so there is no GOAWAY to look at."""
+    import base64
+    import struct
+    want = 0
+    for k, v in pairs:
+        want = want or verdict(k, v)
+    payload = b''.join(struct.pack('>HI', k, v) for k, v in pairs)
+    s = Solo(False)
+    o = s.call('initiate_upgrade_connection', base64.urlsafe_b64encode(payload).rstrip(b'='))
+    r.step('initiate_upgrade_connection', pairs, o.brief())
+    if want == 0:
+        if not o.ok:
+            r.violate('C12:upgrade:valid-rejected:%s' % tag, '%r %s' % (pairs, o.brief()))
+            return
+        for k, v in pairs:
+            try:
+                got = s.c.remote_settings[k]
+            except KeyError:
+                got = None
+            if got != v and [p_ for p_ in pairs if p_[0] == k][-1][1] == v:
+                r.violate('C12:upgrade:value-not-applied:%s' % tag, '%r: %r' % (pairs, got))
+    else:
+        if o.ok:
+            r.violate('C12:upgrade:invalid-accepted:%s' % tag, repr(pairs))
+        elif not o.is_protocol_error():
+            r.violate('C12:upgrade:wrong-exception:%s:%s' % (o.exc_name, tag), repr(pairs))
+        elif o.code != want:
+            r.violate('C12:upgrade:wrong-code:got=%s:want=%s:%s' % (o.code, want, tag), repr(pairs))
+
+
+CHANNELS = {'recv': check_received, 'update': check_update, 'initial': check_initial, 'upgrade': check_upgrade}
 
 
 def tag_of(k, v):
@@ -156,6 +188,8 @@ def tag_of(k, v):
 def grid_items(tier):
     for k, v, chn, client in itertools.product(IDS, VALUES, sorted(CHANNELS), (True, False)):
         if chn == 'update' and k > 255:
+            continue
+        if chn == 'upgrade' and client:
             continue
         yield (k, v, chn, client)
 
@@ -180,6 +214,8 @@ def overflow_case(r, ch):
         s.feed(wire.headers(1, s.hblock(REQ)))
     top = 2**31 - 1
     target = 1
+    if ch.chance(56):
+        return local_overflow_case(r, ch, s, client)
     kind = ch.weighted([(3, 'open'), (2, 'promised'), (1, 'half-closed')])
     if kind == 'promised' and not client:
         # a stream the server has promised but not yet answered (reserved (local)) has a send window too
@@ -228,6 +264,42 @@ def overflow_case(r, ch):
         r.labels.add('overflow-boundary')
     r.nontrivial = True
     r.labels.add('overflow-scenario')
+
+
+def local_overflow_case(r, ch, s, client):
+    """The same in the other direction: the application has raised a stream's receive window with
+    increment_flow_control_window and then raises its own INITIAL_WINDOW_SIZE; when the peer's acknowledgement
+    applies the change, a window that would pass 2^31-1 is a FLOW_CONTROL_ERROR connection error as well."""
+    top = 2**31 - 1
+    inc = ch.boundary([1, top - 65535, top - 65535 - 1, 2**30], 1, top - 65535)
+    o = s.call('increment_flow_control_window', inc, 1)
+    if not o.ok:
+        r.violate('C12:local-overflow:legal-increment-refused', '%d %s' % (inc, o.brief()))
+        return
+    win = 65535 + inc
+    edge = top - win + 65535
+    v = ch.boundary([edge, edge + 1, 0, top], 0, top)
+    o = s.call('update_settings', {wire.S_INITIAL_WINDOW_SIZE: v})
+    if not o.ok:
+        r.violate('C12:local-overflow:valid-update-refused', '%d %s' % (v, o.brief()))
+        return
+    o = s.feed(wire.settings(ack=True))
+    new_win = win + (v - 65535)
+    r.step('local overflow', 'client' if client else 'server', 'inc', inc, 'iws', v, 'new-window', new_win, o.brief())
+    goaways = [f for f in o.frames if f.type == wire.GOAWAY]
+    if new_win > top:
+        if o.ok:
+            r.violate('C12:local-overflow:accepted', 'inc=%d iws=%d' % (inc, v))
+        elif not o.is_protocol_error() or o.code != F:
+            r.violate('C12:local-overflow:wrong-error:%s:%s' % (o.exc_name, o.code), 'inc=%d iws=%d' % (inc, v))
+        elif len(goaways) != 1 or goaways[0].f.get('code') != F:
+            r.violate('C12:local-overflow:wrong-goaway', repr(o.frames))
+    elif not o.ok:
+        r.violate('C12:local-overflow:legal-change-rejected:%s' % o.exc_name, 'inc=%d iws=%d' % (inc, v))
+    if abs(new_win - top) <= 2:
+        r.labels.add('overflow-boundary')
+    r.nontrivial = True
+    r.labels.add('local-overflow-scenario')
 
 
 def run_case(data):
